@@ -110,6 +110,18 @@ CHECKS = {
             "Finite queries and coefficients with all terms and slopes within 1e300; own-value references in context "
             "matches use the raw selector.",
             "DESIGN.md 3/C08"),
+    "C01": ("exploration",
+            "Hypothesis-generated XTCE documents + packets synthesised from each document (steering by construction), "
+            "library decode compared item by item with an independent bit-string/Fraction reference decoder "
+            "(differential oracle)",
+            "Documents over the whole supported subset are loaded from XML written by the harness's own renderer or "
+            "built from objects; streams of packets constructed to reach branches, dead ends, ambiguities, dynamic "
+            "lengths and calibrator boundaries are decoded with and without unrecognised-packet reporting and every "
+            "yielded item, value, raw value and type is compared with the reference semantics. Sampled.",
+            "Trusts the reference semantics (vf/xref.py), which is small, exact and shares no code with the library; "
+            "bounded by the supported subset of DESIGN.md 2.3; sub-domains the properties leave open are counted, "
+            "not asserted.",
+            "DESIGN.md 3/C01"),
 }
 
 PENDING_REASON = "check not built yet in this round (planned, see DESIGN.md section 3); nothing is claimed for it"
